@@ -7,6 +7,7 @@ package interp
 import (
 	"fmt"
 	"math"
+	"math/big"
 	"math/bits"
 	"strings"
 )
@@ -556,7 +557,143 @@ func (p *termPool) FPBin(op string, a, b *Term) *Term { // fp.add etc. with RNE
 }
 
 func (p *termPool) FPCmp(op string, a, b *Term) *Term {
+	if r := p.dyadicCmp(op, a, b); r != nil {
+		return r
+	}
+	if b.isConst() && a.isConst() {
+		x, y := math.Float64frombits(a.val), math.Float64frombits(b.val)
+		if a.sort.w == 32 {
+			x, y = float64(math.Float32frombits(uint32(a.val))), float64(math.Float32frombits(uint32(b.val)))
+		}
+		switch op {
+		case "fp.eq":
+			return p.Bool(x == y)
+		case "fp.lt":
+			return p.Bool(x < y)
+		case "fp.leq":
+			return p.Bool(x <= y)
+		case "fp.gt":
+			return p.Bool(x > y)
+		case "fp.geq":
+			return p.Bool(x >= y)
+		}
+	}
 	return p.mk(op, boolSort, a, b)
+}
+
+// dyadicCmp rewrites a comparison between float64(x)*2^-k (x an unsigned integer below 2^53,
+// so both the conversion and the scaling are exact) and a float64 constant c into an integer
+// comparison on x:  x*2^-k >= c  <=>  x >= ceil(c*2^k), and so on. Exact, no rounding involved.
+func (p *termPool) dyadicCmp(op string, a, b *Term) *Term {
+	if a.sort.w != 64 {
+		return nil
+	}
+	flip := map[string]string{"fp.lt": "fp.gt", "fp.gt": "fp.lt", "fp.leq": "fp.geq", "fp.geq": "fp.leq", "fp.eq": "fp.eq"}
+	if a.isConst() && !b.isConst() {
+		a, b = b, a
+		op = flip[op]
+	}
+	if !b.isConst() || a.isConst() {
+		return nil
+	}
+	x, k, ok := dyadicParts(a)
+	if !ok {
+		return nil
+	}
+	c := math.Float64frombits(b.val)
+	if c != c {
+		return p.Bool(false)
+	}
+	w := x.sort.w
+	ub := upperBound(x)
+	if math.IsInf(c, 1) {
+		return p.Bool(op == "fp.lt" || op == "fp.leq")
+	}
+	if math.IsInf(c, -1) {
+		return p.Bool(op == "fp.gt" || op == "fp.geq")
+	}
+	// s = c * 2^k exactly
+	sv := new(big.Float).SetPrec(2000).SetFloat64(c)
+	sv.SetMantExp(sv, k)
+	fl, _ := new(big.Float).SetPrec(2000).Copy(sv).Int(nil) // truncated toward zero
+	isInt := new(big.Float).SetPrec(2000).SetInt(fl).Cmp(sv) == 0
+	floor := new(big.Int).Set(fl)
+	ceil := new(big.Int).Set(fl)
+	if !isInt {
+		if sv.Sign() < 0 {
+			floor.Sub(floor, big.NewInt(1))
+		} else {
+			ceil.Add(ceil, big.NewInt(1))
+		}
+	}
+	ubig := new(big.Int).SetUint64(ub)
+	geq := func(n *big.Int) *Term { // x >= n
+		if n.Sign() <= 0 {
+			return p.Bool(true)
+		}
+		if n.Cmp(ubig) > 0 {
+			return p.Bool(false)
+		}
+		return p.BVCmp("bvuge", x, p.BV(n.Uint64(), w))
+	}
+	leq := func(n *big.Int) *Term { // x <= n
+		if n.Sign() < 0 {
+			return p.Bool(false)
+		}
+		if n.Cmp(ubig) >= 0 {
+			return p.Bool(true)
+		}
+		return p.BVCmp("bvule", x, p.BV(n.Uint64(), w))
+	}
+	switch op {
+	case "fp.geq":
+		return geq(ceil)
+	case "fp.gt":
+		return geq(new(big.Int).Add(floor, big.NewInt(1)))
+	case "fp.leq":
+		return leq(floor)
+	case "fp.lt":
+		return leq(new(big.Int).Sub(ceil, big.NewInt(1)))
+	case "fp.eq":
+		if !isInt || floor.Sign() < 0 || floor.Cmp(ubig) > 0 {
+			return p.Bool(false)
+		}
+		return p.Eq(x, p.BV(floor.Uint64(), w))
+	}
+	return nil
+}
+
+// dyadicParts matches float64(x) * 2^-k with x < 2^53.
+func dyadicParts(a *Term) (*Term, int, bool) {
+	k := 0
+	if a.op == "fp.mul RNE" {
+		var c *Term
+		switch {
+		case a.args[1].isConst():
+			c, a = a.args[1], a.args[0]
+		case a.args[0].isConst():
+			c, a = a.args[0], a.args[1]
+		default:
+			return nil, 0, false
+		}
+		f := math.Float64frombits(c.val)
+		fr, e := math.Frexp(f)
+		if fr != 0.5 || f <= 0 { // not a positive power of two
+			return nil, 0, false
+		}
+		k = -(e - 1)
+		if k < 0 || k > 900 {
+			return nil, 0, false
+		}
+	}
+	if !strings.HasPrefix(a.op, "(_ to_fp_unsigned 11 53)") {
+		return nil, 0, false
+	}
+	x := a.args[0]
+	if upperBound(x) >= 1<<53 {
+		return nil, 0, false
+	}
+	return x, k, true
 }
 
 func (p *termPool) FPNeg(a *Term) *Term { return p.mk("fp.neg", a.sort, a) }
